@@ -1,16 +1,16 @@
-\* C15 code as written, columns that fit, no #line name collision, no EOF-in-#if after an include: PosFaithfulFit must hold
+\* C15 code as written, columns that fit, no #line name collision, no EOF-in-#if after an include; 2 files, <= 5 items (quick): PosFaithfulFit must hold
 CONSTANTS
   CNO = 2
   LNO = 3
   Packer = "aswritten"
   Policy = "aswritten"
   EofPolicy = "aswritten"
-  FileNames = {"a", "b", "c"}
+  FileNames = {"a", "b"}
   TopFile = "a"
   LineNames = {"a", "x"}
   LineNums = {1, 4}
   Cols = {1, 3, 4, 9}
-  RunLens = {1, 2, 4}
+  RunLens = {1, 4}
   MaxLines = 12
   MaxIf = 1
   MaxItems = 5
